@@ -194,6 +194,8 @@ pub enum Render {
     Spaced,
     /// nothing between lexemes unless they would fuse
     Tight,
+    /// an empty block comment, and no white space, between lexemes
+    Commented,
 }
 
 pub struct ETok {
@@ -241,6 +243,13 @@ impl ETok {
                             if self.alpha.fuse[idx[p - 1]][*i] {
                                 out.push(' ')
                             }
+                        }
+                        Render::Commented => {
+                            // `/` directly before the comment would start a line comment
+                            if prev.text.ends_with('/') {
+                                out.push(' ');
+                            }
+                            out.push_str("/**/")
                         }
                     }
                 }
